@@ -629,7 +629,9 @@ impl State {
             );
         }
 
-        for change in decode_state.changes.drain(..) {
+        // undo in reverse order, so that intra-block dependencies (close then sweep,
+        // HTLC spend then second-level spend) unwind correctly
+        for change in decode_state.changes.drain(..).rev() {
             self.apply_backward_change(&mut adds, &mut removes, change);
         }
 
